@@ -131,13 +131,22 @@ Definition rfc2047_encode (s : bytes) (st : wst) : res unit (wst * bytes) :=
   rfc2047_go (2 * length s + 2) s false st.
 
 (* lettre: allowed_char / allowed_str / HeaderValueEncoder (after the fixes "encode control characters in
-   header values", "encode words that look like RFC 2047 encoded-words") *)
+   header values", "encode words that look like RFC 2047 encoded-words" and its refinement to whole tokens) *)
 Definition allowed_char (c : N) : bool := (c =? 9) || ((32 <=? c) && (c <=? 126)).
-Fixpoint contains_eq_q (s : bytes) : bool :=          (* s.contains("=?") *)
+(* s.split(|c| c == ' ' || c == '\t').any(|t| t.starts_with("=?") && t.ends_with("?=")) *)
+Fixpoint ends_with_qe (s : bytes) : bool :=          (* t.ends_with("?=") *)
   match s with
-  | b :: ((c :: _) as r) => ((b =? 61) && (c =? 63)) || contains_eq_q r
-  | _ => false
+  | [b; c] => (b =? 63) && (c =? 61)
+  | _ :: r => ends_with_qe r
+  | [] => false
   end.
+Definition ew_token (t : bytes) : bool := starts_with [61; 63] t && ends_with_qe t.
+Fixpoint ew_tokens_go (s : bytes) (cur_rev : bytes) : bool :=
+  match s with
+  | [] => ew_token (frev cur_rev)
+  | b :: r => if (b =? SP) || (b =? TAB) then ew_token (frev cur_rev) || ew_tokens_go r [] else ew_tokens_go r (b :: cur_rev)
+  end.
+Definition contains_eq_q (s : bytes) : bool := ew_tokens_go s [].
 Definition allowed_str (s : bytes) : bool := forallb allowed_char s && negb (contains_eq_q s).
 
 (* str::split_inclusive(' ') *)
